@@ -508,8 +508,6 @@ func (p *pool) defs() string {
 	return b.String()
 }
 
-func safeComment(s string) string { return strings.ReplaceAll(strings.ReplaceAll(s, "(*", "( *"), "*)", "* )") }
-
 func rootTerm(p *pool, in runIn) string {
 	return fmt.Sprintf("(Root %d %s %s %s %s %d %s)", in.Mode, gen.Bool(in.Strict), p.ref(in.Evt), p.ref(in.Src), p.ref(in.Dst), in.NArgs, p.ref(in.Dev0))
 }
@@ -795,7 +793,7 @@ func main() {
 			cases = append(cases, replyCase(p, s, sampleReply(rRep)))
 		}
 	}
-	header := "From Verif Require Import FairMQ.\nOpen Scope N_scope.\n" + p.defs()
+	header := "From Verif Require Import Common FairMQ.\nOpen Scope N_scope.\n" + p.defs()
 	if err := gen.WriteCases(o, "C16", header, "c16_case", "report16", cases, extra); err != nil {
 		panic(err)
 	}
